@@ -336,6 +336,30 @@ func checkC03(r *core.Run) {
 		r.Add("states", nprog)
 		r.Add("transitions", nprog)
 	}
+	// programs in which the analyser has been seen to assume another context than a tokenizer: recursive helpers that end
+	// in another context than they start in, names split over text nodes, helpers shared between call sites
+	S := tmplx.Slot
+	for _, raw := range []string{
+		`{{define "rh"}}` + S + `{{if false}}{{template "rh" $}}{{end}}<script>1{{end}}<b>{{template "rh" $}}</script>`,
+		`{{define "rh"}}` + S + `{{if false}}{{template "rh" $}}{{end}}" title="x{{end}}<a href="{{template "rh" $}}">y</a>`,
+		`{{define "rh"}}` + S + `{{if false}}{{template "rh" $}}{{end}}<style>a{}{{end}}<b>{{template "rh" $}}</style>`,
+		`{{define "rh"}}` + S + `{{if false}}{{template "rh" $}}{{end}}" id="x{{end}}<a title="{{template "rh" $}}">y</a>`,
+		`<s{{$x := 1}}cript>` + S + `</script>`, `<s{{if $.C}}{{end}}tyle>` + S + `</style>`, `<t{{$x := 1}}extarea>` + S + `</textarea>`, `<t{{/* c */}}itle>` + S + `</title>`,
+		`<button for{{if true}}maction{{end}}="` + S + `">`, `<iframe src{{if true}}doc{{end}}="` + S + `"></iframe>`, `<img src{{$x := 1}}set="` + S + `">`, `<a hre{{$x := 1}}f="` + S + `">`,
+		`<a title{{if true}}/{{end}}="` + S + `">`, `<a i{{$x := 1}}d="` + S + `">`, `<p s{{$x := 1}}tyle="` + S + `">`,
+		`{{define "hp"}}` + S + `{{end}}<img src="{{template "hp" $}}">{{if true}}<script{{else}}<img{{end}} src="{{template "hp" $}}"></script>`,
+		`{{define "hp"}}` + S + `{{end}}{{template "hp" $}}<svg>{{template "hp" $}}</svg>`,
+		`{{define "hp"}}` + S + `{{end}}<p>{{template "hp" $}}</p><script>{{template "hp" $}}</script>`,
+		`{{define "hp"}}` + S + `{{end}}<a title="{{template "hp" $}}">x</a><a {{if true}}href{{else}}title{{end}}="{{template "hp" $}}">y</a>`,
+		`{{define "hp"}}` + S + `{{end}}<a href="{{template "hp" $}}">x</a><script src="{{template "hp" $}}"></script>`,
+		`<link rel="stylesheet {{$x := 1}}icon" href="` + S + `">`, `<link rel="{{if true}}stylesheet {{end}}icon" href="` + S + `">`, `<link rel="{{if false}}{{else}}stylesheet {{end}}icon" href="` + S + `">`,
+	} {
+		if nd := tmplx.NodeFromRaw(raw, 9); nd != nil {
+			visitB(nd)
+		} else {
+			r.HarnessError("C03 part B: program %s could not be built", raw)
+		}
+	}
 	r.Set("part_b", fmt.Sprintf("typed values in %d programs of the raw/tag/cmt fragment families and raw-text end-tag products: %d executions; contents may appear verbatim only where the tokenizer is in the type's own context", progB, execB))
 	if r.Expired() {
 		r.NotExhaustive("internal deadline reached")
